@@ -1075,6 +1075,19 @@ theorem routes_deselects_excl {V} (r : Runner V) (p : Key) (o : V) (n : Key)
     have : sel.contains n = true := List.contains_iff_mem.mpr h
     rw [this] at hm; exact absurd hm.2.1 (by simp)
 
+/-- the part of `Boundary` that already holds before the ready channels are handed out
+    (everything but "no channel is triggered") -/
+structure PreB {V} (r : Runner V) (Hc H : List (Done V)) (F : Key → Nat) (cm : Chans V) : Prop where
+  sub : ∀ d, d ∈ Hc → d ∈ H
+  k : K r H cm
+  sh : shapes cm = shapes (initChans r)
+  bound : ∀ n, F n + skOf cm n ≤ 1
+  rp : ∀ p, ((∃ o, (p, o) ∈ Hc) ∨ skOf cm p = 1) → RP F cm p
+  hf : ∀ p o, (p, o) ∈ H → p = START ∨ 1 ≤ F p
+  fn : ∀ p o o', (p, o) ∈ H → (p, o') ∈ H → o = o'
+  just : ∀ n, 1 ≤ F n → lookupList n r.ctrlPreds ≠ [] →
+      ∃ p, p ∈ lookupList n r.ctrlPreds ∧ ∃ o, (p, o) ∈ H ∧ RoutesC r p o n
+
 /-- what is known at a round boundary (after `calcNext` produced the next tasks): `Hc` are the
     completions that have been processed, `H ⊇ Hc` a history the soundness invariant holds for
     (batch loop: the same; eager loop: the outputs of everything submitted) -/
@@ -1090,15 +1103,19 @@ structure Boundary {V} (r : Runner V) (Hc H : List (Done V)) (F : Key → Nat) (
   just : ∀ n, 1 ≤ F n → lookupList n r.ctrlPreds ≠ [] →
       ∃ p, p ∈ lookupList n r.ctrlPreds ∧ ∃ o, (p, o) ∈ H ∧ RoutesC r p o n
 
-theorem completed_not_skipped {V} {r : Runner V} {Hc H : List (Done V)} {F : Key → Nat} {cm : Chans V}
-    (b : Boundary r Hc H F cm) (hstart : START ∉ akeys cm) (p : Key) (o : V) (h : (p, o) ∈ H) : skOf cm p = 0 := by
+theorem Boundary.pre {V} {r : Runner V} {Hc H : List (Done V)} {F : Key → Nat} {cm : Chans V}
+    (b : Boundary r Hc H F cm) : PreB r Hc H F cm :=
+  ⟨b.sub, b.k, b.sh, b.bound, b.rp, b.hf, b.fn, b.just⟩
+
+theorem completed_not_skipped_pre {V} {r : Runner V} {Hc H : List (Done V)} {F : Key → Nat} {cm : Chans V}
+    (b : PreB r Hc H F cm) (hstart : START ∉ akeys cm) (p : Key) (o : V) (h : (p, o) ∈ H) : skOf cm p = 0 := by
   rcases b.hf p o h with rfl | h1
   · unfold skOf; rw [alookup_none_of_not_mem _ _ hstart]
   · have := b.bound p; omega
 
 /-- completeness of the skip flags: what the specification calls skipped is flagged -/
-theorem skippedS_flagged {V} {r : Runner V} {Hc H : List (Done V)} {F : Key → Nat} {cm : Chans V}
-    (hd : r.dag = true) (b : Boundary r Hc H F cm) (hstart : START ∉ akeys cm)
+theorem skippedS_flagged_pre {V} {r : Runner V} {Hc H : List (Done V)} {F : Key → Nat} {cm : Chans V}
+    (hd : r.dag = true) (b : PreB r Hc H F cm) (hstart : START ∉ akeys cm)
     (hp4 : ∀ n, lookupList n r.ctrlPreds ≠ [] → n ∈ akeys cm) :
     ∀ n, SkippedS r Hc n → skOf cm n = 1 := by
   intro n hs
@@ -1121,7 +1138,7 @@ theorem skippedS_flagged {V} {r : Runner V} {Hc H : List (Done V)} {F : Key → 
         rcases pre p hp with ⟨o', ho', hdz⟩ | hfl
         · rw [b.fn p o' o (b.sub _ ho') ho] at hdz
           exact routes_deselects_excl r p o n hr hdz
-        · have := completed_not_skipped b hstart p o ho
+        · have := completed_not_skipped_pre b hstart p o ho
           omega
       · omega
     by_cases hsk : c.skipped = true
@@ -1176,7 +1193,7 @@ theorem skippedS_flagged {V} {r : Runner V} {Hc H : List (Done V)} {F : Key → 
             rcases pre p hp with ⟨o', ho', hdz⟩ | hfl
             · rw [b.fn p o' o (b.sub _ ho') ho] at hdz
               exact routes_deselects_excl r p o n hr hdz
-            · have := completed_not_skipped b hstart p o ho
+            · have := completed_not_skipped_pre b hstart p o ho
               omega
       have hcne : c.ctrl ≠ [] := by
         intro hnil
@@ -1187,15 +1204,13 @@ theorem skippedS_flagged {V} {r : Runner V} {Hc H : List (Done V)} {F : Key → 
           rw [hnil] at this; simp [akeys] at this
       exact hsk (b.k.flag n c hc hcne hall)
 
-/-- **completeness at a round boundary**: a node the specification calls enabled has been started -/
-theorem complete_at {V} {r : Runner V} {Hc H : List (Done V)} {F : Key → Nat} {cm : Chans V}
-    (hd : r.dag = true) (b : Boundary r Hc H F cm) (hstart : START ∉ akeys cm)
+/-- a node the specification calls enabled and that has not been started sits on a triggered
+    channel (before the ready channels are handed out) -/
+theorem triggered_of_enabled {V} {r : Runner V} {Hc H : List (Done V)} {F : Key → Nat} {cm : Chans V}
+    (hd : r.dag = true) (b : PreB r Hc H F cm) (hstart : START ∉ akeys cm)
     (hp4 : ∀ n, lookupList n r.ctrlPreds ≠ [] → n ∈ akeys cm) :
-    ∀ n, Enabled r Hc n → 1 ≤ F n := by
-  intro n ⟨hne, hctrl, ⟨p0, hp0, o0, ho0, hr0⟩, hdata⟩
-  apply Classical.byContradiction
-  intro hF
-  have hF0 : F n = 0 := by omega
+    ∀ n, Enabled r Hc n → F n = 0 → ∃ c, (n, c) ∈ cm ∧ c.triggered = true := by
+  intro n ⟨hne, hctrl, ⟨p0, hp0, o0, ho0, hr0⟩, hdata⟩ hF0
   obtain ⟨c, hc⟩ := exists_of_mem_akeys _ _ (hp4 n hne)
   have keys := chan_ctrl_keys r hd cm b.sh b.k.nd n c hc
   have dkeys := chan_data_keys r hd cm b.sh n c hc
@@ -1203,7 +1218,7 @@ theorem complete_at {V} {r : Runner V} {Hc H : List (Done V)} {F : Key → Nat} 
     intro p hp
     rcases hp with h | h
     · exact b.rp p (Or.inl h)
-    · exact b.rp p (Or.inr (skippedS_flagged hd b hstart hp4 p h))
+    · exact b.rp p (Or.inr (skippedS_flagged_pre hd b hstart hp4 p h))
   -- the channel cannot be skipped: the routed predecessor's entry would be `skipped`
   have hnsk : c.skipped = false := by
     by_cases hsk : c.skipped = true
@@ -1212,7 +1227,7 @@ theorem complete_at {V} {r : Runner V} {Hc H : List (Done V)} {F : Key → Nat} 
       have := (b.k.sk n c hc).all hsk p0 d hdm
       subst this
       rcases b.k.skp n c hc p0 hdm with h | ⟨o', ho', hdz⟩
-      · have := completed_not_skipped b hstart p0 o0 (b.sub _ ho0)
+      · have := completed_not_skipped_pre b hstart p0 o0 (b.sub _ ho0)
         omega
       · rw [b.fn p0 o' o0 ho' (b.sub _ ho0)] at hdz
         exact routes_deselects_excl r p0 o0 n hr0 hdz
@@ -1288,6 +1303,28 @@ theorem complete_at {V} {r : Runner V} {Hc H : List (Done V)} {F : Key → Nat} 
         rw [e1] at e2
         have : x.2 = true := Option.some.inj e2
         simp [this]
+  exact ⟨c, hc, htrig⟩
+
+theorem completed_not_skipped {V} {r : Runner V} {Hc H : List (Done V)} {F : Key → Nat} {cm : Chans V}
+    (b : Boundary r Hc H F cm) (hstart : START ∉ akeys cm) (p : Key) (o : V) (h : (p, o) ∈ H) : skOf cm p = 0 :=
+  completed_not_skipped_pre b.pre hstart p o h
+
+/-- completeness of the skip flags: what the specification calls skipped is flagged -/
+theorem skippedS_flagged {V} {r : Runner V} {Hc H : List (Done V)} {F : Key → Nat} {cm : Chans V}
+    (hd : r.dag = true) (b : Boundary r Hc H F cm) (hstart : START ∉ akeys cm)
+    (hp4 : ∀ n, lookupList n r.ctrlPreds ≠ [] → n ∈ akeys cm) :
+    ∀ n, SkippedS r Hc n → skOf cm n = 1 :=
+  skippedS_flagged_pre hd b.pre hstart hp4
+
+/-- **completeness at a round boundary**: a node the specification calls enabled has been started -/
+theorem complete_at {V} {r : Runner V} {Hc H : List (Done V)} {F : Key → Nat} {cm : Chans V}
+    (hd : r.dag = true) (b : Boundary r Hc H F cm) (hstart : START ∉ akeys cm)
+    (hp4 : ∀ n, lookupList n r.ctrlPreds ≠ [] → n ∈ akeys cm) :
+    ∀ n, Enabled r Hc n → 1 ≤ F n := by
+  intro n hen
+  apply Classical.byContradiction
+  intro hF
+  obtain ⟨c, hc, htrig⟩ := triggered_of_enabled hd b.pre hstart hp4 n hen (by omega)
   have := b.untr n c hc
   rw [htrig] at this; cases this
 
